@@ -482,3 +482,11 @@ def bounded(K):
     K.bounded('crosscheck', ok, {'evaluations': len(cases) * 3, 'distinct_nontrivial': len(set((c[0], c[1], c[2]) for c in cases)),
                                  'bound': f'{len(cases)} (order, seed, len<= {nbits}, split) cases', 'samples': [{'order': c[0], 'seed': c[1], 'len': c[2]} for c in cases[:3]],
                                  'failures': bad if st == 'ok' else st, 'confirmed': True})
+
+
+def frame_runs(K):
+    L = z3.Int('len')
+    S = z3.Function('S', z3.IntSort(), z3.BitVecSort(W))
+    f = Fn(*K.repo.find('devices.PRBS')[:2])
+    return [('devices.PRBS', lambda ex: ex.call_fn(f, [7, L, z3.Int('seed')], {'return_seed': True}), [S(0) == z3.Int2BV(spec_seed(z3.Int('seed'), 7), W)],
+             lambda ex: setup_loop(ex, 7, L, S))]
